@@ -12,7 +12,7 @@ ENGINES = {
     "C02": "eng_fp", "C03": "eng_str",
     "C06": "eng_store", "C07": "eng_annot", "C08": "eng_util", "C09": "eng_util", "C10": "eng_truth",
     "C11": "eng_solver", "C12": "eng_solver", "C13": "eng_solver", "C14": "eng_solver", "C15": "eng_solver",
-    "C16": "eng_solver", "C17": "eng_solver", "C18": "eng_solver", "C26": "eng_solver",
+    "C16": "eng_solver", "C17": "eng_solver", "C18": "eng_solver", "C26": "eng_values",
     "C19": "eng_gc", "C20": "eng_threads",
     "C21": "eng_vsa", "C22": "eng_vsa", "C23": "eng_vsa", "C24": "eng_vsa", "C25": "eng_vsa",
 }
